@@ -4,3 +4,9 @@ mod serde;
 mod types;
 
 pub use self::types::*;
+
+/// Verification hook: the mailbox grammar entry points
+#[cfg(feature = "verif-hooks")]
+pub(crate) mod verif_parsers {
+    pub(crate) use super::parsers::{mailbox, mailbox_list};
+}
